@@ -62,6 +62,30 @@ class Context:
         it._modcache = self.consts.interp._modcache
         return it
 
+    def other(self, mod):
+        """The rules of another property's check, for sharing obligations between neighbouring properties; computed once
+        per context.  If that analysis stops early (an anchor it needs has moved, an unmodelled construct), the rules it
+        had completed are returned and the list is marked `broken`: a rule that shares from it keeps what exists and its
+        floor is waived (noted in the evidence) - one property's analysis error must not silence the others' verdicts."""
+        key = mod.__name__
+        cache = self.__dict__.setdefault("_other", {})
+        if key in cache:
+            return cache[key]
+        from .report import ALL_RULES
+
+        class _Rules(list):
+            broken = None
+        n0 = len(ALL_RULES)
+        prop = key.rsplit(".", 1)[-1].upper()
+        cache[key] = _Rules()  # a cycle of sharing sees an empty list, not a recursion
+        try:
+            rules = _Rules(mod.run(self))
+        except Exception as e:  # noqa: BLE001
+            rules = _Rules(r for r in ALL_RULES[n0:] if r.rid.startswith(prop + "."))
+            rules.broken = f"{prop}: {str(e)[:160]}"
+        cache[key] = rules
+        return rules
+
     def func(self, fq: str, rule: str):
         fi = self.repo.find_func(fq)
         if fi is None:
